@@ -432,6 +432,18 @@ class CallMixin:
             raise Unsupported("dict comprehension form", node)
         gen = node.generators[0]
         src = self.eval(gen.iter)
+        if src.py is not None and src.py[0] == "items" and src.py[1].py is not None and src.py[1].py[0] == "dictlit":
+            # comprehension over a literal dict: unroll
+            saved = dict(self.ctx.locals)
+            pairs = []
+            try:
+                for k, v in src.py[1].py[1]:
+                    tv = TTuple([k.ty, v.ty])
+                    self.bind_target(gen.target, SV(tv, tv.mk(k.t, v.t)), None)
+                    pairs.append((self.eval(node.key), self.eval(node.value)))
+            finally:
+                self.ctx.locals = saved
+            return self.dict_from_pairs(pairs, node)
         enum = src.py is not None and src.py[0] == "enumerate"
         it = self.iter_list(src.py[1] if enum else src, gen.iter)
         if it.t is None:
@@ -592,6 +604,12 @@ class CallMixin:
             cls = self.reg.exc_parents.get(cls)
         return None
 
+    def unopt(self, v: SV, node=None) -> SV:
+        if isinstance(v.ty, TOpt):
+            self.may_raise("TypeError", z3.Not(v.ty.is_none(v.t)), node, "None operand")
+            return SV(v.ty.inner, v.ty.get(v.t), v.place)
+        return v
+
     def need_place(self, base: SV, node):
         if base.place is None:
             raise Unsupported("mutation of a temporary", node)
@@ -697,7 +715,10 @@ class CallMixin:
         if attr == "copy":
             return SV(base.ty, base.t)
         if attr in ("union", "intersection", "difference"):
-            a, b = self.unify_sets(base, args[0] if isinstance(args[0].ty, TSet) else SV(TSet(args[0].ty.elem), args[0].ty.elems_fn()(args[0].t)))
+            o = self.unopt(args[0], node)
+            if base.t is None and o.t is None:
+                return SV(_EMPTY_SET, None)
+            a, b = self.unify_sets(base, o if isinstance(o.ty, TSet) else SV(TSet(o.ty.elem), o.ty.elems_fn()(o.t)))
             f = {"union": z3.SetUnion, "intersection": z3.SetIntersect, "difference": z3.SetDifference}[attr]
             return SV(a.ty, f(a.t, b.t))
         if attr == "issubset":
@@ -725,10 +746,14 @@ class CallMixin:
             val = SV(ty.val, z3.Select(ty.val_(base.t), k.t))
             if len(args) > 1:
                 dflt = args[1]
-                if isinstance(dflt.ty, (TList, TSet)) and dflt.t is None:
-                    dflt = self.coerce(SV(TSet(None) if False else dflt.ty, None), ty.val) if isinstance(ty.val, (TList, TSet)) else dflt
-                    if isinstance(ty.val, TSet) and isinstance(dflt.ty, TList):
+                if dflt.t is None and isinstance(dflt.ty, (TList, TSet, TDict)):
+                    # untyped empty container as default: only its emptiness matters
+                    if isinstance(ty.val, TSet):
                         dflt = SV(ty.val, ty.val.empty())
+                    elif isinstance(ty.val, TList):
+                        dflt = self.empty_list(ty.val)
+                    else:
+                        raise Unsupported("dict.get default", node)
                 a, b = self.unify(val, dflt, node)
                 return SV(a.ty, z3.If(has, a.t, b.t))
             oty = TOpt(ty.val)
@@ -939,6 +964,26 @@ class CallMixin:
             return SV(v.ty.inner, v.ty.get(v.t))
         return v
 
+    def spec_pos(self, node):
+        """pos(L, x): a position of x in list L (meaningful when x in L)."""
+        L, x = self.args_of(node)
+        self.ctx.note_ty(L.ty)
+        x = self.coerce(x, L.ty.elem, node)
+        return SV(TInt, L.ty.pos_fn()(L.t, x.t))
+
+    def spec_eq_ci(self, node):
+        """eq_ci(s, 'Literal'): s equals the literal ignoring ASCII case."""
+        s_ = self.eval(node.args[0])
+        lit = ast.literal_eval(node.args[1])
+        parts = []
+        for ch in lit:
+            if ch.lower() != ch.upper():
+                parts.append(z3.Union(z3.Re(ch.lower()), z3.Re(ch.upper())))
+            else:
+                parts.append(z3.Re(ch))
+        rx = z3.Concat(*parts) if len(parts) > 1 else parts[0]
+        return mk_bool(z3.InRe(s_.t, rx))
+
     def spec_int_of(self, node):
         (v,) = self.args_of(node)
         return self.as_int(v, node)
@@ -1029,7 +1074,7 @@ _EMPTY_SET = _EmptyS()
 
 SPEC_FORMS = {
     "forall", "exists", "implies", "iff", "ite", "old", "asc", "desc", "distinct", "elems", "dom", "card",
-    "subset", "empty_set", "is_none", "some", "clock", "raised", "ghost", "get", "int_of", "str_of", "lpre",
+    "subset", "empty_set", "is_none", "some", "clock", "raised", "ghost", "get", "int_of", "str_of", "lpre", "pos", "eq_ci",
 }
 
 import itertools
